@@ -19,7 +19,17 @@
     balance, gas, message validity; an account that does not exist in
     DeliverTx) is an arbitrary boolean supplied with the submission, and an
     accepted transaction bumps the sequence by one.  The three routes are
-    instances that differ only in [auth]. *)
+    instances that differ only in [auth].
+
+    One Cosmos transaction of the Ethereum route may carry SEVERAL
+    MsgEthereumTx, each with its own signature and nonce ([step_tx]):
+    EthSigVerificationDecorator authenticates every message, then
+    EthIncrementSenderSequenceDecorator walks over the messages in order, reads
+    the sender's account afresh for every message, demands nonce = CURRENT
+    sequence (which already counts the earlier messages of this very
+    transaction) and bumps it; any failure fails the whole transaction and
+    baseapp drops every write of the ante handler.  [step] is the
+    one-message case of [step_tx] ([step_tx_singleton] in SigProofs.v). *)
 From Coq Require Import Ascii String.
 From Coq Require Import NArith ZArith List Bool.
 From HV Require Import Base.Bytes Base.Rlp TxCodec.EthTxModel.
@@ -61,6 +71,68 @@ Section Machine.
       behalf of account [a] with nonce [n]" *)
   Definition accepted_at (st : A -> N) (h : list (T * bool)) (j : nat) (a : A) (n : N) : Prop :=
     exists t ok, nth_error h j = Some (t, ok) /\ nth_error (outcomes st h) j = Some (Some a) /\ nonce_of t = n.
+
+  (** ** one transaction, several signed messages
+
+      EthSigVerificationDecorator: the loop over tx.GetMsgs() authenticates every
+      message (against the state the transaction started in; the Ethereum [auth]
+      does not look at it) and fails on the first one that is refused *)
+  Fixpoint auth_all (st : A -> N) (ms : list T) : option (list A) :=
+    match ms with
+    | [] => Some []
+    | m :: r => match auth st m with
+                | Some a => match auth_all st r with Some l => Some (a :: l) | None => None end
+                | None => None
+                end
+    end.
+
+  (** EthIncrementSenderSequenceDecorator: the loop over tx.GetMsgs(); for every
+      message GetAccount(sender), nonce <> acc.GetSequence() -> error, else
+      SetSequence(nonce + 1), SetAccount -- so the next message of the same
+      sender is compared with the bumped sequence *)
+  Fixpoint bump_all (st : A -> N) (l : list (A * N)) : option (A -> N) :=
+    match l with
+    | [] => Some st
+    | (a, n) :: r => if (n =? st a)%N then bump_all (upd st a (st a + 1)%N) r else None
+    end.
+
+  (** one submission = the messages of one Cosmos transaction and the verdict of
+      the unmodelled checks (one for the transaction); result = new state and
+      the accounts on whose behalf the messages execute, in message order.  A
+      transaction without messages is refused (baseapp.validateBasicTxMsgs);
+      a refused transaction leaves no trace (baseapp.runTx writes the ante
+      handler's branch of the state back only on success). *)
+  Definition step_tx (st : A -> N) (x : list T * bool) : (A -> N) * option (list A) :=
+    let '(ms, other_ok) := x in
+    match ms with
+    | [] => (st, None)
+    | _ =>
+        match auth_all st ms with
+        | Some l =>
+            match bump_all st (combine l (map nonce_of ms)) with
+            | Some st' => if other_ok then (st', Some l) else (st, None)
+            | None => (st, None)
+            end
+        | None => (st, None)
+        end
+    end.
+
+  Fixpoint outcomes_tx (st : A -> N) (h : list (list T * bool)) : list (option (list A)) :=
+    match h with
+    | [] => []
+    | x :: r => snd (step_tx st x) :: outcomes_tx (fst (step_tx st x)) r
+    end.
+  Fixpoint final_tx (st : A -> N) (h : list (list T * bool)) : A -> N :=
+    match h with
+    | [] => st
+    | x :: r => final_tx (fst (step_tx st x)) r
+    end.
+
+  (** "message number [k] of transaction number [j] of history [h] (started in
+      [st]) was executed on behalf of account [a] with nonce [n]" *)
+  Definition executed_at (st : A -> N) (h : list (list T * bool)) (j k : nat) (a : A) (n : N) : Prop :=
+    exists ms ok l m, nth_error h j = Some (ms, ok) /\ nth_error (outcomes_tx st h) j = Some (Some l) /\
+                      nth_error ms k = Some m /\ nth_error l k = Some a /\ nonce_of m = n.
 End Machine.
 
 (** * the Ethereum route *)
@@ -84,6 +156,12 @@ Section EthRoute.
   Definition step_eth := step (list_eq_dec N.eq_dec) auth_eth tx_nonce.
   Definition outcomes_eth := outcomes (list_eq_dec N.eq_dec) auth_eth tx_nonce.
   Definition accepted_eth := accepted_at (list_eq_dec N.eq_dec) auth_eth tx_nonce.
+
+  (** one Cosmos transaction carrying a list of MsgEthereumTx *)
+  Definition step_eth_tx := step_tx (list_eq_dec N.eq_dec) auth_eth tx_nonce.
+  Definition outcomes_eth_tx := outcomes_tx (list_eq_dec N.eq_dec) auth_eth tx_nonce.
+  Definition final_eth_tx := final_tx (list_eq_dec N.eq_dec) auth_eth tx_nonce.
+  Definition executed_eth := executed_at (list_eq_dec N.eq_dec) auth_eth tx_nonce.
 End EthRoute.
 
 (** signing, for the positive direction: [sign k h] gives (r, s, recovery id) *)
@@ -199,28 +277,40 @@ Definition sub_nonce (s : sub) : N :=
   match s with SEth _ _ n _ => n | SCosmos _ n _ _ => n | SEip712 _ n _ _ _ _ => n end.
 
 Definition step_sub (nd : node) := step N.eq_dec (auth_sub nd) sub_nonce.
+(** a submission is a Cosmos transaction = a list of signed units: one for the
+    Cosmos / EIP-712 routes (the transaction's signature), one per MsgEthereumTx
+    for the Ethereum route *)
+Definition step_sub_tx (nd : node) := step_tx N.eq_dec (auth_sub nd) sub_nonce.
+
+Fixpoint list_N_eqb (x y : list N) : bool :=
+  match x, y with
+  | [], [] => true
+  | a :: x', b :: y' => N.eqb a b && list_N_eqb x' y'
+  | _, _ => false
+  end.
 
 (** a recorded history: initial sequences of the interned accounts, then for
-    every submission the verdict of the unmodelled checks and what the
-    implementation did (the executing account, if accepted) together with the
-    sequences of all interned accounts afterwards *)
+    every submitted transaction its signed units, the verdict of the unmodelled
+    checks and what the implementation did (the executing accounts in message
+    order, if accepted) together with the sequences of all interned accounts
+    afterwards *)
 Definition init_state (l : list (N * N)) : N -> N := lookup l.
 
 Fixpoint check_from (nd : node) (na : nat) (i : nat) (st : N -> N)
-         (h : list (sub * bool * option N * list N)) : option nat :=
+         (h : list (list sub * bool * option (list N) * list N)) : option nat :=
   match h with
   | [] => None
   | (s, other_ok, who, seqs) :: r =>
-      let '(st', o) := step_sub nd st (s, other_ok) in
+      let '(st', o) := step_sub_tx nd st (s, other_ok) in
       let same_who := match o, who with
-                      | Some a, Some b => N.eqb a b | None, None => true | _, _ => false end in
+                      | Some a, Some b => list_N_eqb a b | None, None => true | _, _ => false end in
       let same_seqs := forallb (fun p => N.eqb (st' (N.of_nat (fst p))) (snd p)) (combine (seq 0 na) seqs) in
       if same_who && same_seqs && Nat.eqb (length seqs) na then check_from nd na (S i) st' r else Some i
   end.
 
 Record hist := mk_hist {
   h_node : node; h_naccounts : nat; h_init : list (N * N);
-  h_steps : list (sub * bool * option N * list N) }.
+  h_steps : list (list sub * bool * option (list N) * list N) }.
 
 Definition check_case (c : hist) : bool :=
   match check_from (h_node c) (h_naccounts c) 0 (init_state (h_init c)) (h_steps c) with None => true | Some _ => false end.
